@@ -26,6 +26,64 @@ int main(int argc, char** argv) {
     int emitted = 0;
     int quota[8] = {0};
     auto want = [&](int cat, int share) { return quota[cat] * 100 < share * (emitted + 1) + 100; };
+    bool repMode = argc > 3 && std::string(argv[3]) == "rep";
+    static const char* pseudoEp[][2] = {
+        {"3k4/8/8/8/3p4/8/4P3/3R2K1 w - - 0 1", "e2e4"}, {"4k3/8/8/8/2p5/8/3P4/2R1K3 w - - 0 1", "d2d4"},
+        {"2r1k3/3p4/8/2P5/8/8/8/2K5 b - - 0 1", "d7d5"}, {"7k/8/8/8/1p6/8/B1P5/K7 w - - 0 1", "c2c4"},
+        {"8/2p5/3p4/KP5r/1R3p1k/8/4P1P1/8 w - - 0 1", "e2e4"}, {"8/2p5/3p4/KP5r/1R3p1k/8/4P1P1/8 w - - 0 1", "g2g4"} };
+    while (repMode && emitted < count) {
+        // history = prefix + shuffle cycles so that some root move completes a 2nd/3rd occurrence or the 50-move count
+        int style = rnd.nextInt(10);
+        std::string start;
+        Position pos;
+        std::vector<Move> hist;
+        if (style < 2) {
+            int k = rnd.nextInt(6);
+            start = pseudoEp[k][0];
+            pos = TextIO::readFEN(start);
+            Move m = TextIO::uciStringToMove(pseudoEp[k][1]);
+            UndoInfo ui; pos.makeMove(m, ui); hist.push_back(m);
+        } else if (style < 5) {
+            static const char* f50[] = {"8/8/8/3k4/8/3K4/4R3/8 w - - %d 60", "r3k2r/8/8/8/8/8/8/R3K2R w KQkq - %d 40",
+                                        "6k1/5ppp/8/8/8/8/5PPP/4R1K1 b - - %d 30", "8/5k2/8/8/8/2B5/1K6/7n w - - %d 77"};
+            char buf[128]; snprintf(buf, sizeof(buf), f50[rnd.nextInt(4)], 90 + rnd.nextInt(21));
+            start = buf; pos = TextIO::readFEN(start);
+        } else {
+            start = rnd.nextInt(2) ? fens[0] : fens[rnd.nextInt((int)fens.size())];
+            pos = TextIO::readFEN(start);
+            int pre = rnd.nextInt(40);
+            for (int i = 0; i < pre; i++) {
+                MoveList ml; legalMoves(pos, ml);
+                if (ml.size == 0) break;
+                Move m = ml[rnd.nextInt(ml.size)]; UndoInfo ui; pos.makeMove(m, ui); hist.push_back(m);
+            }
+        }
+        // shuffle: quiet reversible moves, preferring to undo the move made two plies ago
+        int len = 1 + rnd.nextInt(11);
+        bool dead = false;
+        for (int i = 0; i < len; i++) {
+            MoveList ml; legalMoves(pos, ml);
+            if (ml.size == 0) { dead = true; break; }
+            Move pick = ml[rnd.nextInt(ml.size)];
+            bool found = false;
+            if (hist.size() >= 2 && rnd.nextInt(100) < 85) {
+                Move prev = hist[hist.size() - 2];
+                for (int k = 0; k < ml.size; k++)
+                    if (ml[k].from() == prev.to() && ml[k].to() == prev.from() && pos.getPiece(ml[k].to()) == Piece::EMPTY) { pick = ml[k]; found = true; break; }
+            }
+            if (!found)
+                for (int t = 0; t < 10; t++) {
+                    const Move& m = ml[rnd.nextInt(ml.size)];
+                    int p = pos.getPiece(m.from());
+                    if (p != Piece::WPAWN && p != Piece::BPAWN && pos.getPiece(m.to()) == Piece::EMPTY) { pick = m; break; }
+                }
+            UndoInfo ui; pos.makeMove(pick, ui); hist.push_back(pick);
+        }
+        MoveList ml; legalMoves(pos, ml);
+        if (dead || ml.size == 0) continue;
+        emit("rep", pos, start, hist, ml.size);
+        emitted++;
+    }
     while (emitted < count) {
         int mode = rnd.nextInt(10);
         if (mode < 7) {
